@@ -632,10 +632,13 @@ fn ack_run(server: bool, w: u32, sizes: &[usize], rewin: Option<(usize, u32)>) -
     let mut pad = vec![];
     let mut boundaries = vec![0usize];
     // … mixed with the message kinds that make a session raise an event but return no packet (the peer's own
-    // acknowledgements, ping responses, aborts): every received byte counts, whatever it belongs to
+    // acknowledgements, ping responses, aborts, a tiny peer-bandwidth limit, stream-begin): every received byte
+    // counts, whatever it belongs to, and nothing but a window announcement changes the window
     let mut k = 0usize;
     while pad.len() < total + 400 {
-        let m = match k % 5 {
+        let m = match k % 7 {
+            5 => MessagePayload { timestamp: RtmpTimestamp::new(0), type_id: 6, message_stream_id: 0, data: Bytes::from(vec![0u8, 0, 0, 1, 2]) },
+            6 => MessagePayload { timestamp: RtmpTimestamp::new(0), type_id: 4, message_stream_id: 0, data: Bytes::from(vec![0u8, 0, 0, 0, 0, 1]) },
             1 => MessagePayload { timestamp: RtmpTimestamp::new(0), type_id: 3, message_stream_id: 0, data: Bytes::from(vec![0u8, 0, 3, 232]) },
             3 => MessagePayload { timestamp: RtmpTimestamp::new(0), type_id: 4, message_stream_id: 0, data: Bytes::from(vec![0u8, 7, 0, 0, 0, 9]) },
             4 => MessagePayload { timestamp: RtmpTimestamp::new(0), type_id: 2, message_stream_id: 0, data: Bytes::from(vec![0u8, 0, 0, 77]) },
